@@ -11,6 +11,12 @@ CLAIMED = {
     "C01": ("exploration",
             "Seeded histories (1-40 operations, thorough up to 200) over the 16 Filespace methods plus buffer-mutation pseudo-operations on the memfs root and child views, paths in random spellings; refinement against ModelTree step by step: result class, then the whole tree walked through the public interface, queries in several spellings through every view, and every earlier returned slice/listing (snapshot clause). Single task, fault-free configuration of the simulator.",
             "Sampling of histories; unspecified cases (listed in the evidence assumptions) are accepted either way and cut the history when the resulting state is not defined by the statement."),
+    "C06": ("fault_enumeration",
+            "Seeded cases (initial remote tree, 1-25 cache operations on overlapping paths through the cache and its child views, intermediate Commits) run under the simulator (directory copies run a real fsloop); fault-free execution: remote untouched before Commit, remote = model (initial remote + accepted operations applied directly) after; then the final Commit is re-executed once for EVERY remote I/O position x applicable fault kind (op-error, write-error, torn-write, close-error) under the recorded choices of the dry run: the Commit must report the failure and a following fault-free Commit must bring the remote to the model tree. Journal iteration orders inside Commit are seeded choices.",
+            "Every position of the last Commit of each sampled case is faulted; cases themselves are sampled. The model applies an operation only if the cache accepted it; histories are cut where the statement does not define the result."),
+    "C07": ("exploration",
+            "Same generator as C06 without faults and without Commit: after every mutating cache operation the whole tree seen through the cache (walk through the public interface), queries in several spellings through the cache and its child views, reads and listings are compared with the model (initial remote + accepted operations).",
+            "Sampling of histories; only answers of read-type operations are judged (the statement says nothing about which mutations a cache must refuse)."),
     "C08": ("exploration",
             "Seeded search over schedules of the real fsloop producers, consumers and completion goroutine (all locks, wait groups, channel operations and a random subset of statement boundaries are scheduling points), over tree shapes, filters, limits, queue capacities, latencies and one injected listing/callback error; oracle: exactly-once multiset against a model walk, concurrency bound, wait-after-last-callback, termination under a fair tail.",
             "Sampling, not enumeration. Trusted: simrt primitives model sync faithfully; preemption granularity is the statement, not the instruction."),
